@@ -31,4 +31,28 @@ def pollReadConds : List String :=
   ["s.closed", "s.f!=nil", "for:i<s.ReadAttempts", "n>0", "err!=nil&&err!=io.EOF", "s.Reopen",
    "st!=nil&&st.Size()!=s.readBytes", "st.Size()>=s.readBytes", "err!=nil"]
 
+/-! #### observation point (b): `syncReaderToBatcherWithTimeFlush` and `TailFilesToChan` -/
+
+/-- `batch` is created with `make`, grows by `append` only, and is re-assigned after a send with a FRESH
+    `make` – never re-sliced (`Rare.C15.Batch.flush` allocates a new array) -/
+def batchAssigns : List String :=
+  ["make([]extractor.BString,0,batchSize)", "append(batch,readahead.Bytes())", "make([]extractor.BString,0,batchSize)"]
+
+/-- the slice header itself travels on the channel, together with the source name and `batchStart` -/
+def batchSends : List String :=
+  ["s.c<-extractor.InputBatch{Batch:batch,Source:sourceName,BatchStart:batchStart,}",
+   "s.c<-extractor.InputBatch{Batch:batch,Source:sourceName,BatchStart:batchStart,}"]
+
+/-- flush when full or when the timer has expired – looked at only when a line has just been appended;
+    the remainder is flushed after the loop -/
+def batchLoopConds : List String :=
+  ["for:readahead.Scan()", "len(batch)>=batchSize||time.Since(lastBatchFlush)>=autoFlush", "len(batch)>0"]
+
+def tailFilesConds : List String := ["err!=nil", "tail", "err!=nil"]
+
+/-- one follow reader per file, drained when `tail`, read by the time-flush loop -/
+def tailFilesCalls : List String :=
+  ["followreader.New(filename,reopen,poll)", "r.Drain()",
+   "out.syncReaderToBatcherWithTimeFlush(filename,r,batchSize,AutoFlushTimeout)"]
+
 end Rare.Follow.Expected
